@@ -383,34 +383,36 @@ def normalize_url(
         path = path.rstrip("/")
 
     # Quoting
+    # NOTE: the quoted form is the quoting of the unquoted form, so that both
+    # modes agree on what is escaped whatever the spelling of the input
     if user:
+        user = safely_unquote_auth_item(user)
+
         if quoted:
             user = safely_quote(user)
-        else:
-            user = safely_unquote_auth_item(user)
 
     if password:
+        password = safely_unquote_auth_item(password)
+
         if quoted:
             password = safely_quote(password)
-        else:
-            password = safely_unquote_auth_item(password)
+
+    path = safely_unquote_path(path)
 
     if quoted:
         path = safely_quote(path)
-    else:
-        path = safely_unquote_path(path)
+
+    qsl = safely_unquote_qsl(qsl)
 
     if quoted:
         qsl = safely_quote_qsl(qsl)
-    else:
-        qsl = safely_unquote_qsl(qsl)
 
     query = safe_serialize_qsl(qsl)
 
+    fragment = safely_unquote_fragment(fragment)
+
     if quoted:
         fragment = safely_quote(fragment)
-    else:
-        fragment = safely_unquote_fragment(fragment)
 
     # Result
     netloc = unsplit_netloc(user, password, hostname, port)
